@@ -1,4 +1,5 @@
 import ZbossModel.Proofs.HostTimers
+import ZbossModel.Proofs.HostLoss
 /-! # C20 - closing or losing the link never strands a caller and is reported once -/
 namespace Zboss.Host
 
@@ -231,5 +232,56 @@ example : let st := (runEvents {} [.start 1 5 true 3 300013, .start 2 1 true 1 5
 example : let r := runEvents {} [.start 1 5 true 3 300013, .start 2 1 true 1 500026, .close, .tick]
     r.2 = [[.write 1 0 0 3], [], [.closeOut], [.done 1 .runtimeError, .done 2 .runtimeError]] ∧ r.1.now = Gen.ackTimeoutMs := by
   decide +kernel
+
+/-- **requests in flight terminate by their timers after a loss - every history**: lose the link in any reachable
+    state.  Give every request the weight 2 while it may still write a frame or waits for an acknowledgement and 1 while
+    it is otherwise running; this potential never grows under task steps once the API has no uart and drops with every
+    timer expiry while a request is running (`tick_progress`, resting on the no-lost-wake-up invariant).  Hence after as
+    many timer expiries as the potential counts - at most two per request: one acknowledgement wait, one response wait -
+    every request has ended; none waits for anything but its own timers.  (Each expiry is taken at a quiescent point of
+    the event loop, `ready = []` - the granularity of the model.) -/
+theorem C20_loss_requests_end_with_their_timers (evs : List Ev) (n : Nat)
+    (hq : ∀ k, k < n → (ticks k (step (runEvents {} evs).1 .lost)).ready = [])
+    (hn : 2 * (step (runEvents {} evs).1 .lost).reqs.length ≤ n) :
+    ∀ r ∈ (ticks n (step (runEvents {} evs).1 .lost)).reqs, r.phase = .done := by
+  have hg : Good (step (runEvents {} evs).1 .lost) := good_step _ _ (good_reachable evs)
+  have hclosed : (step (runEvents {} evs).1 .lost).isOpen = false := by
+    rw [step_eq_pre]
+    have h2 : (pre (runEvents {} evs).1 .lost).2 = true := rfl
+    rw [h2]
+    show (settle settleFuel (pre (runEvents {} evs).1 .lost).1).isOpen = false
+    rw [(frame_settle _ _).isOpen]
+    simp only [pre]
+    split <;> rfl
+  exact loss_drains n _ hg hclosed hq (Nat.le_trans (pot_le _) hn)
+
+/-- the same from any reachable state in which the API has no uart (closed, or lost earlier), with the exact count -/
+theorem C20_no_uart_requests_end_with_their_timers (evs : List Ev) (n : Nat)
+    (hclosed : (runEvents {} evs).1.isOpen = false)
+    (hq : ∀ k, k < n → (ticks k (runEvents {} evs).1).ready = [])
+    (hn : pot (view (runEvents {} evs).1) ≤ n) :
+    ∀ r ∈ (ticks n (runEvents {} evs).1).reqs, r.phase = .done :=
+  loss_drains n _ (good_reachable evs) hclosed hq hn
+
+/-- every single expiry makes progress -/
+theorem C20_timer_expiry_makes_progress (evs : List Ev) (hclosed : (runEvents {} evs).1.isOpen = false)
+    (hq : (runEvents {} evs).1.ready = []) (hrun : ∃ r ∈ (runEvents {} evs).1.reqs, r.phase ≠ .done) :
+    pot (view (step (runEvents {} evs).1 .tick)) < pot (view (runEvents {} evs).1) :=
+  tick_progress _ (good_reachable evs) hclosed hq hrun
+
+/-! ## non-vacuity of `C20_loss_requests_end_with_their_timers`: three requests - request 1 (3 fragments, blocking)
+    awaits the ACK of its first fragment, request 2 (blocking) queues behind it, request 3 (2 fragments) waits for the
+    message lock; the link is lost.  Six timer expiries are allowed for (2 x 3 requests), every one is taken at a
+    quiescent point, and all three requests have ended; the first expiry (the ACK wait) already ends all of them. -/
+example : let st := step (runEvents {} [.start 1 5 true 3 300013, .start 2 1 true 1 500026, .start 3 2 false 2 700039]).1 .lost
+    (∀ k, k < 6 → (ticks k st).ready = []) ∧ 2 * st.reqs.length ≤ 6 ∧ ((ticks 6 st).reqs.all fun r => r.phase == .done) = true ∧
+    pot (view st) = 4 ∧ pot (view (ticks 1 st)) = 0 := by decide +kernel
+
+/-! ## ... and with requests that outlive the loss until their own response timeouts: request 1 is fully acknowledged
+    and awaits its response (300013 ms), request 2 awaits the ACK of its only fragment: the expiries come at
+    ACK_TIMEOUT (request 2 goes on to await its response), at 300013 ms (request 1 ends) and at request 2's deadline -/
+example : let st := step (runEvents {} [.start 1 5 false 1 300013, .rxAck 0, .start 2 1 false 1 500026]).1 .lost
+    (∀ k, k < 4 → (ticks k st).ready = []) ∧ pot (view st) = 3 ∧ pot (view (ticks 1 st)) = 2 ∧ pot (view (ticks 2 st)) = 1 ∧
+    pot (view (ticks 3 st)) = 0 ∧ ((ticks 3 st).reqs.all fun r => r.phase == .done) = true := by decide +kernel
 
 end Zboss.Host
